@@ -376,8 +376,17 @@ MEASURES = {
 }
 
 
+_SUBCLASS = {}
+
+
 def fresh_net(g, sl):
     from pyunicorn.core.network import Network
+    if g.get("cls") == "subclass":
+        # a network class derived from Network outside the pyunicorn namespace (a user's class; RecurrenceNetwork,
+        # VisibilityGraph and the climate networks are in the same position): distributed = serial for it as well
+        if "c" not in _SUBCLASS:
+            _SUBCLASS["c"] = type("UserDefinedNetwork", (Network,), {})
+        Network = _SUBCLASS["c"]
     buf = io.StringIO()
     with contextlib.redirect_stdout(buf):
         net = Network(adjacency=adjacency(g["n"], g["edges"]), directed=False,
@@ -710,6 +719,14 @@ def gen_distributed(rs, tier):
                     yield {"kind": "distributed", "graph": g, "measure": measure, "kwargs": kw,
                            "size": 4, "transport": tr, "assign": "least-load", "policy": "random",
                            "seed": 5, "silence_level": sl}
+        # the same measures on an object of a class derived from Network (first small graphs only)
+        if not big and n <= 30:
+            g2 = dict(g, cls="subclass")
+            for measure, kw in (MPI_VARIANTS[0], MPI_VARIANTS[1], MPI_VARIANTS[3]):
+                for tr in ("standin", "comm"):
+                    yield {"kind": "distributed", "graph": g2, "measure": measure, "kwargs": kw,
+                           "size": 3, "transport": tr, "assign": "least-load", "policy": "random",
+                           "seed": 7, "silence_level": 2}
         # all completion orders admitted by the protocol for small part counts
         parts, _ = expected_parts(ncomp, 3)
         if 2 <= parts <= (3 if quick else 4) and not big:
